@@ -21,8 +21,12 @@ ELLS = {
     # so that 'equal within a tolerance' is not 'the same ellipsoid'
     'grs80_a3mm': gc.Ellipsoid(6378137.003, 298.257222101), 'grs80_f2e7': gc.Ellipsoid(6378137.0, 298.2572223),
     'ans_a5mm': gc.Ellipsoid(6378160.005, 298.25), 'wgs84_f3e7': gc.Ellipsoid(6378137.0, 298.257223863),
+    # nearly spherical bodies and the sphere itself (C03 places no bound on 1/f): formulas dividing by e^2 lose everything here
+    'ns_1e3': gc.Ellipsoid(6371000.0, 1.0e3), 'ns_2e4': gc.Ellipsoid(6371000.0, 2.0e4), 'ns_1e6': gc.Ellipsoid(6371000.0, 1.0e6),
+    'ns_1e9': gc.Ellipsoid(6371000.0, 1.0e9), 'sphere': gc.Ellipsoid(6371000.0, float('inf')),
 }
 TWINS = ['grs80_a3mm', 'grs80_f2e7', 'ans_a5mm', 'wgs84_f3e7']
+NEAR_SPHERES = ['ns_1e3', 'ns_2e4', 'ns_1e6', 'ns_1e9', 'sphere']
 ELL_AF = {k: (float(v.semimaj), float(v.inversef)) for k, v in ELLS.items()}
 # Published defining values of the shipped ellipsoids (EPSG 7019, 7030, 7003, 7022) and projections (UTM; NSW ISG technical
 # manual).  The oracles use THESE numbers, not the ones stored in the library objects, so a mistyped constant is a
@@ -438,6 +442,8 @@ def lat_lattice_tm(tier, seed):
          45.0, 60.0, 75.0, 84.0 - 1e-6, 84.0,
          # limits of the UTM system's irregular zones (32V: 56..64 N; 31X-37X: 72..84 N), which this library does NOT implement:
          # the zone is the regular 6-degree one everywhere
-         56.0 - 1e-9, 56.0, 63.5, 64.0 - 1e-9, 64.0, 72.0 - 1e-9, 72.0, 78.5]
+         56.0 - 1e-9, 56.0, 63.5, 64.0 - 1e-9, 64.0, 72.0 - 1e-9, 72.0, 78.5,
+         # where tan(lat) passes 8 (the spacing of doubles doubles there): a sweep of the last degree of the band
+         82.87, 82.88, 82.89, 82.9, 82.91, 82.92, 83.0, 83.3, 83.7, 83.9, -79.5, -79.9]
     step = 4.0 if tier == 'quick' else 1.0
     return uniq(s + fill(-80.0, 84.0, step, seed, 1))
